@@ -32,6 +32,9 @@ ASSUMPTIONS = ["'illegal names' are those the graph constructor judges (node, ou
 def bases():
     e = "e0"
     yield "chain", T.prog([T.fn("na", [e], ["a0"]), T.fn("nb", ["a0", "k"], ["b0", "b1"], defaults={"k": ["dflt", "k"]}), T.fn("nc", ["b0", "k"], ["c0"], defaults={"k": ["dflt", "k"]})], name="base")
+    # shared parameters whose (consistent) default is None / falsy: valid, and each flaw around them must still be seen
+    yield "chain-none-defaults", T.prog([T.fn("na", [e, "k"], ["a0"], defaults={"k": None}), T.fn("nb", ["a0", "k", "z"], ["b0"], defaults={"k": None, "z": 0}), T.fn("nc", ["b0", "z"], ["c0"], defaults={"z": 0})], name="base")
+    yield "chain-shared-undefaulted", T.prog([T.fn("na", [e, "k"], ["a0"]), T.fn("nb", ["a0", "k"], ["b0"]), T.ifelse("gq", ["k"], "na", "END")], name="base")
     for nt in (1, 2, 3):
         tg = ["p", "pq", "pqr"][:nt]
         nodes = [T.fn("src", [e], ["a0"]), T.route("gt", ["a0"], tg + ["END"])] + [T.fn(t, ["a0"], ["x_" + t]) for t in tg]
@@ -185,6 +188,21 @@ def flaws(name, prog):
                     s2["defaults"] = dict(s2.get("defaults", {}), **{q: ["dflt", q]})
                     s2["params"] = [x for x in s2["params"] if x not in s2["defaults"]] + [x for x in s2["params"] if x in s2["defaults"]]
                     yield "inconsistent-default-presence", f"{where}:{q}@{s2['id']}", p
+                    # ... a default is a default whatever its value: None / 0 / '' on one consumer, none on the other
+                    for fv in (None, 0, ""):
+                        p = clone()
+                        s3 = at(p, path)["nodes"][i]
+                        s3["defaults"] = dict(s3.get("defaults", {}), **{q: fv})
+                        s3["params"] = [x for x in s3["params"] if x not in s3["defaults"]] + [x for x in s3["params"] if x in s3["defaults"]]
+                        yield "inconsistent-default-presence", f"{where}:{q}@{s3['id']}={fv!r}", p
+                if has[j] and all(has):
+                    for fv in (None, 0):
+                        if level["nodes"][i]["defaults"][q] == fv and type(level["nodes"][i]["defaults"][q]) is type(fv):
+                            continue  # (no change)
+                        p = clone()
+                        s3 = at(p, path)["nodes"][i]
+                        s3["defaults"] = dict(s3["defaults"], **{q: fv})
+                        yield "inconsistent-default-value", f"{where}:{q}@{s3['id']}={fv!r}", p
         # 6b. the same through a rename: the defaulted parameter of a renamed node meets an undefaulted namesake
         for i, s in enumerate(level["nodes"]):
             for orig, ext in (s.get("rename_in") or {}).items():
